@@ -107,7 +107,7 @@ func namedGraph(name string) (*Graph, string) {
 func init() {
 	Register(Meta{
 		ID: "C12", Level: "exploration",
-		Rule:        "every report produced by: C01 propositional formulas (size<=1) on the truth-table graph, the C01 quantifier and depth families, C02 paths (<=2 leaves) on the collision suite, a level-mix family (multi-branch formulas in all three levels at once on the 16-node truth table, >=11 results per level), nested chains of depth 1..3 with sibling quantifiers on a 4-layer fan graph (several sub-results per trace, several traces per result), the C14 lexical documents, and the command line tool (every sequence of 2 [thorough: 3] long/short/conforming reports written to one output file, from an absent file and over longer junk, plus what it prints without an output path). Each report is walked completely by an oracle written from the statement (JSON, one instance, one report node, every typed node has an @id, all @ids pairwise distinct, focus nodes grounded in the input, validation names defined, non-empty message/trace, trace entries complete). Non-trivial = report with at least one result; distinct by report text.",
+		Rule:        "every report produced by: C01 propositional formulas (size<=1) on the truth-table graph, the C01 quantifier and depth families, C02 paths (<=2 leaves) on the collision suite, a level-mix family (multi-branch formulas in all three levels at once on the 16-node truth table, >=11 results per level), nested chains of depth 1..3 with sibling quantifiers on a 4-layer fan graph (several sub-results per trace, several traces per result), the C14 lexical documents, and the command line tool (every sequence of 2 [thorough: 3] long/short/conforming/percent-sign-bearing reports written to one output file, from an absent file and over longer junk, plus what it prints without an output path). Each report is walked completely by an oracle written from the statement (JSON, one instance, one report node, every typed node has an @id, all @ids pairwise distinct, focus nodes grounded in the input, validation names defined, non-empty message/trace, trace entries complete). Non-trivial = report with at least one result; distinct by report text.",
 		Assumptions: []string{"node table of the input taken from the abstract graph the document was rendered from"},
 	}, c12Gen, c12Run)
 }
@@ -248,8 +248,8 @@ func c12Gen(tier string, emit func(c12Case)) {
 	{
 		p, names := c12ProfileFor("ex.T", multi[0:3], []string{"violation", "warning", "info"})
 		for _, first := range []int{0, -1} {
-			for a := 0; a < 3; a++ {
-				for b := 0; b < 3; b++ {
+			for a := 0; a < 4; a++ {
+				for b := 0; b < 4; b++ {
 					var pre []int
 					if first == -1 {
 						pre = []int{-1}
@@ -288,8 +288,12 @@ func c12RunCLI(c *Ctx, cs c12Case) {
 	one := &Graph{}
 	one.Add(nid(0), EX+"T").P(EX+"p1", "v").P(EX+"p2", "v").P(EX+"p3", "v").P(EX+"p4", "v")
 	one.Add(nid(1), EX+"T")
-	graphs := []*Graph{TruthTableGraph(4, false), one, conf}
-	gnames := []string{"long", "short", "conforming"}
+	// node ids as AMF writes them for URL-encoded paths: "%2F", "%20" and a "%d" / "%s" that a formatting function would eat
+	pct := &Graph{}
+	pct.Add("amf://id#/web-api/endpoints/%2Fpets/%7Bid%7D", EX+"T").P(EX+"p1", "100%")
+	pct.Add("file:///my%20api.raml#/declares/%d/%s", EX+"T")
+	graphs := []*Graph{TruthTableGraph(4, false), one, conf, pct}
+	gnames := []string{"long", "short", "conforming", "percent signs"}
 	os.WriteFile(filepath.Join(dir, "p.yaml"), []byte(cs.Profile), 0o644)
 	for i, g := range graphs {
 		os.WriteFile(filepath.Join(dir, fmt.Sprintf("d%d.jsonld", i)), []byte(g.FlatJSONLD()), 0o644)
